@@ -81,7 +81,7 @@ class C01(Monitor):
         return out
 
     def on_crash(self, w, op, crash):
-        if op[0] == "put":
+        if op[0] == "put" and crash.where == "put":
             return [V("C01", "granted-put-succeeds", w, "put with a granted reservation raised %s" % crash,
                       op="put", exc=type(crash.exc).__name__)]
         if crash.where in ("env.step",) and "exceeds capacity" in str(crash.exc):
@@ -119,7 +119,7 @@ class C02(Monitor):
         return out
 
     def on_crash(self, w, op, crash):
-        if op[0] == "get":
+        if op[0] == "get" and crash.where == "get":
             t = w.toks[op[1]]
             canc = sum(1 for x in w.toks if x.side == "g" and x.status == CANC and x.t_grant is not None)
             return [V("C02", "granted-get-succeeds", w, "get with a granted reservation raised %s" % crash,
@@ -282,7 +282,7 @@ class C20S(Monitor):
     prop = "C20"
 
     def on_crash(self, w, op, crash):
-        if op[0] in ("put", "get"):
+        if op[0] in ("put", "get") and crash.where == op[0]:
             return []  # judged by C01 / C02
         return [V("C20", "no-crash", w, "%s" % crash, op=op[0], where=crash.where, exc=type(crash.exc).__name__)]
 
